@@ -279,8 +279,58 @@ def judge_longhaul(case, out):
     out.obs = core.h64(repr(sorted(case.items(), key=str)))
 
 
+def judge_instances(case, out):
+    """
+    Several wrappers in one process, one after another and interleaved, each over its own
+    source: every one must deliver exactly its own stream.  (The BFS rebuilds states by
+    replaying histories on fresh wrappers, so it relies on this independence; it is therefore
+    checked first.)
+    """
+    from pyrtcm.socketwrapper import SocketWrapper  # pylint: disable=import-outside-toplevel
+
+    enc = case.get("encoding", 0)
+    srcs = case["sources"]
+    try:
+        # one after another
+        for k, (wire, expect) in enumerate(srcs):
+            sock = FakeSock(wire, script=[3, 1] if k % 2 else [])
+            wrap = SocketWrapper(sock, encoding=enc, bufsize=case.get("bufsize", 4096))
+            got = bytearray()
+            for _ in range(len(wire) + 8):
+                b = wrap.read(1 if k % 2 else 3) or wrap.read(1)
+                if not b:
+                    break
+                got += b
+            if bytes(got) != expect:
+                out.bad("wrapper-instances-interfere",
+                        f"wrapper #{k + 1} created in this process delivered {bytes(got)[:24]!r}.. "
+                        f"({len(got)} B) for a peer stream of {expect[:24]!r}.. ({len(expect)} B)")
+                return
+        # interleaved: all alive at once, advanced round-robin
+        wraps = []
+        for wire, expect in srcs:
+            sock = FakeSock(wire, script=[2, 5])
+            wraps.append((SocketWrapper(sock, encoding=enc, bufsize=7), expect, bytearray()))
+        for _ in range(max(len(w) for w, _e in srcs) + 8):
+            for wrap, _expect, got in wraps:
+                got += wrap.read(1)
+        for k, (_wrap, expect, got) in enumerate(wraps):
+            if bytes(got) != expect:
+                out.bad("wrapper-instances-interfere",
+                        f"interleaved wrapper #{k + 1} delivered {bytes(got)[:24]!r}.. for {expect[:24]!r}..")
+                return
+    except NonTermination as err:
+        out.bad("nontermination", f"instances: {err}")
+    except Exception as err:  # pylint: disable=broad-except
+        out.bad("wrapper-raises", f"instances: {type(err).__name__}: {err}")
+    out.obs = core.h64(repr(srcs))
+
+
 def judge(case):
     out = core.Outcome()
+    if case["kind"] == "instances":
+        judge_instances(case, out)
+        return out
     if case["kind"] == "bfs":
         judge_bfs_case(case, out)
     elif case["kind"] == "longhaul":
@@ -395,7 +445,22 @@ def run(tier, seed, t0):
     core.check_deterministic(judge, {"kind": "reader", "name": "x",
                                      "data": items.concat(["F2", "nmeaG", "F19"]),
                                      "segs": [3, 9, 1], "bufsize": 2})
-    st = core.pmap(_work, work)
+    inst_case = {"kind": "instances", "sources": [
+        (bytes(range(1, 30)), bytes(range(1, 30))), (b"abcdefghij" * 3, b"abcdefghij" * 3),
+        (bytes(range(200, 240)), bytes(range(200, 240))), (b"\xd3\x00\x02xyzzy", b"\xd3\x00\x02xyzzy")]}
+    inst = core._in_child(lambda: judge(inst_case).violations)  # pylint: disable=protected-access
+    if inst:
+        # wrappers are not independent of each other: the replay-based BFS would be meaningless
+        st = core.Stats()
+        o = core.Outcome()
+        o.violations = list(inst)
+        st.add(inst_case, o)
+        st.capped = True
+        st.notes.append("exploration skipped: wrapper instances interfere with each other, so neither "
+                        "the replay-based BFS nor long sequences of fresh wrappers are meaningful")
+    else:
+        st = core.pmap(_work, work)
+        st.add(inst_case, core.Outcome(obs=1), keep_sample=False)
     return core.finish(
         "C11", tier, seed, LEVEL, st, RULE, t0,
         assumptions=[
